@@ -1090,10 +1090,16 @@ class Exec(ExecBase):
 
     def havoc_modifies(self, c: Contract, ns: Dict[str, Any], st: State) -> State:
         for m in c.modifies:
-            if m.startswith("F:") or m.startswith("L.") or m.startswith("V:"):
+            if m.startswith("param:"):
+                continue      # permission for the syntactic in-place check only; the heap components are listed separately
+            if m.startswith(("F:", "L.", "V:", "D.")):
                 st = st.copy()
                 st.havoc_count += 1
                 cur = st.heap.get(m)
+                if cur is None:
+                    srt = _component_sort(m)
+                    if srt is not None:
+                        cur = st.harr(m, z3.IntSort(), srt)
                 if cur is None:
                     # unknown sort until first use: mark with a fresh suffix
                     st.heap[m] = None  # replaced lazily
@@ -1334,6 +1340,30 @@ class Exec(ExecBase):
     def st_FunctionDef(self, s: ast.FunctionDef, st: State) -> Iterator[Out]:
         fi = FuncInfo(self.fi.qualname + "::" + s.name, None, s, self.fi.module, None, self.fi.file, s.lineno, outer=self.fi)
         yield "fall", None, st.bind(s.name, VFunc("closure", fi=fi, env=dict(st.env)))
+
+
+def _component_sort(key: str) -> Any:
+    """range sort of a list / dict heap component, from its name (None if it cannot be told)"""
+    from .values import abs_sort
+
+    def srt(n: str) -> Any:
+        basic = {"Int": z3.IntSort(), "String": z3.StringSort(), "Bool": z3.BoolSort()}
+        if n in basic:
+            return basic[n]
+        return abs_sort(n) if n.isidentifier() else None
+    try:
+        if key == "L.len":
+            return z3.IntSort()
+        if key.startswith("L.elem:"):
+            return z3.ArraySort(z3.IntSort(), srt(key[7:]))
+        if key.startswith("D.dom:"):
+            return z3.ArraySort(srt(key[6:]), z3.BoolSort())
+        if key.startswith("D.map:"):
+            k, v = key[6:].split("->")
+            return z3.ArraySort(srt(k), srt(v))
+    except Exception:
+        return None
+    return None
 
 
 class OldView:
